@@ -376,7 +376,14 @@ func mcWbEncode(user, key []byte, parity byte) []byte {
 	return out
 }
 
-func mcCodecFrom(e *mcEnv, c *mcCodec, b []byte, near bool) {
+func mcCodecFrom(e *mcEnv, c *mcCodec, b []byte, near bool) { mcCodecFromAs(e, c, b, near, false) }
+
+// zeros: b is all zero bytes and is written as its length in the case term (long inputs)
+func mcCodecFromAs(e *mcEnv, c *mcCodec, b []byte, near bool, zeros bool) {
+	in := cHex(b)
+	if zeros {
+		in = fmt.Sprintf("%d zero bytes", len(b))
+	}
 	var ints []uint64
 	var blobs [][]byte
 	var reser []byte
@@ -394,20 +401,24 @@ func mcCodecFrom(e *mcEnv, c *mcCodec, b []byte, near bool) {
 	switch {
 	case panicked != "":
 		res, cls = "RPan", "panic"
-		e.out.Fail("C18:"+c.tag+":panic", "FromBytes panicked on a "+strconv.Itoa(len(b))+"-byte input: "+panicked, cHex(b))
-		e.out.Fail("C04:"+c.tag+":panic", "FromBytes panicked on a "+strconv.Itoa(len(b))+"-byte input: "+panicked, cHex(b))
+		e.out.Fail("C18:"+c.tag+":panic", "FromBytes panicked on a "+strconv.Itoa(len(b))+"-byte input: "+panicked, in)
+		e.out.Fail("C04:"+c.tag+":panic", "FromBytes panicked on a "+strconv.Itoa(len(b))+"-byte input: "+panicked, in)
 	case err != nil:
 		res, cls = "RErr", "err"
 	default:
 		res, cls = fmt.Sprintf("ROk %s %s %s", mcUList(ints), mcHexList(blobs), cHex(reser)), "ok"
 		if !bytes.Equal(reser, b) {
 			e.out.Fail("C18:"+c.tag+":to-from-mismatch",
-				fmt.Sprintf("ToBytes(FromBytes(b)) != b: %d bytes in, %d bytes out", len(b), len(reser)), cHex(b))
+				fmt.Sprintf("ToBytes(FromBytes(b)) != b: %d bytes in, %d bytes out", len(b), len(reser)), in)
 		}
 		if !c.validLen(b) {
 			e.out.Fail("C18:"+c.tag+":accepts-wrong-length",
-				fmt.Sprintf("FromBytes accepted %d bytes, which is not a length this message can have", len(b)), cHex(b))
+				fmt.Sprintf("FromBytes accepted %d bytes, which is not a length this message can have", len(b)), in)
 		}
+	}
+	if zeros {
+		e.emit(fmt.Sprintf("CFromZeros %s %d (%s)", c.coq, len(b), res), "codec:"+c.tag+":fromzeros:"+cls, near, nil)
+		return
 	}
 	e.emit(fmt.Sprintf("CFrom %s %s (%s)", c.coq, cHex(b), res), "codec:"+c.tag+":from:"+cls, near, nil)
 }
@@ -507,9 +518,104 @@ func mcRunCodecs(e *mcEnv) {
 			}
 		}
 	}
+	mcRunCongruentLengths(e)
+	mcRunRechunk(e)
 	mcRunDelims(e)
 	mcRunChunks(e)
 	mcRunSequences(e)
+}
+
+// for every exact length check: lengths congruent to the accepted one modulo 2^8 (valid message followed by
+// random bytes) and modulo 2^16 (zero bytes, one shared backing slice) - a length compared after a narrowing
+// conversion accepts them and truncates
+func mcRunCongruentLengths(e *mcEnv) {
+	r := e.rng
+	zeros := make([]byte, 3*65536+600)
+	for _, c := range mcCodecs() {
+		c := c
+		exact := map[string]bool{"wg_initiation": true, "rdp_tpkt": true, "rdp_x224": true, "rdp_negreq": true, "rdp_corrinfo": true, "winbox_auth": true}[c.tag]
+		for _, bnd := range c.bounds {
+			for k := 1; k <= 3; k++ {
+				for _, d := range []int{-1, 0, 1} {
+					var s []byte
+					if c.tag == "winbox_auth" {
+						s = mcWbSeedOfLen(r, bnd)
+					} else {
+						s = c.seed(r)
+					}
+					if len(s) > bnd {
+						s = s[:bnd]
+					}
+					l := bnd + 256*k + d
+					mcCodecFrom(e, &c, mcCat(s, r.Bytes(l-len(s))), true)
+					if exact && (d == 0 || k == 1) && (c.tag != "winbox_auth" || bnd == c.bounds[0]) {
+						mcCodecFromAs(e, &c, zeros[:bnd+65536*k+d], true, true)
+					}
+				}
+			}
+		}
+	}
+}
+
+// a Winbox payload cut into chunks of the given sizes (headers self-consistent, first type 06, then FF)
+func mcWbChunked(payload []byte, sizes []int) []byte {
+	var out []byte
+	first := true
+	for _, n := range sizes {
+		t := byte(0xFF)
+		if first {
+			t = 6
+		}
+		out = append(out, byte(n), t)
+		out = append(out, payload[:n]...)
+		payload = payload[n:]
+		first = false
+	}
+	return out
+}
+
+// valid payloads RE-CHUNKED at every boundary (two chunks) and at sampled pairs of boundaries (three chunks),
+// any piece longer than 255 bytes cut canonically: only the canonical chunking may be accepted
+func mcRunRechunk(e *mcEnv) {
+	r := e.rng
+	var wb *mcCodec
+	cs := mcCodecs()
+	for i := range cs {
+		if cs[i].tag == "winbox_auth" {
+			wb = &cs[i]
+		}
+	}
+	split := func(total int, cuts []int) []int { // sizes of the pieces, long pieces cut into 255 + rest
+		var sizes []int
+		prev := 0
+		for _, c := range append(cuts, total) {
+			n := c - prev
+			for n > 255 {
+				sizes = append(sizes, 255)
+				n -= 255
+			}
+			if n > 0 {
+				sizes = append(sizes, n)
+			}
+			prev = c
+		}
+		return sizes
+	}
+	for _, ul := range []int{1, 4, 40, 221, 230} {
+		payload := mcCat(mcWbUser(r, ul), []byte{0}, r.Bytes(32), []byte{byte(r.Intn(2))})
+		n := len(payload)
+		for a := 1; a < n; a++ {
+			if n > 100 && !vThorough() && a%3 != 0 && a != 255 && a != n-1 && a != 1 {
+				continue
+			}
+			mcCodecFrom(e, wb, mcWbChunked(payload, split(n, []int{a})), true)
+			for _, b := range []int{a + 1, a + 2, (a + n) / 2, n - 1} {
+				if b > a && b < n && (n <= 100 || a%9 == 0 || vThorough()) {
+					mcCodecFrom(e, wb, mcWbChunked(payload, split(n, []int{a, b})), true)
+				}
+			}
+		}
+	}
 }
 
 // ToBytes is a function of the message (that is what the model says): the slice it returned must still
@@ -636,6 +742,9 @@ func mcRunDelims(e *mcEnv) {
 		for p := 0; p <= len(base); p++ {
 			for _, d := range mcDelims {
 				if !vThorough() && len(base) > 30 && p%3 != 0 && len(d) != 2 {
+					continue
+				}
+				if !vThorough() && p%2 != 0 && p != len(base) && !(len(d) == 2 && d[0] == 0x0D) {
 					continue
 				}
 				for k := 0; k <= 3; k++ {
